@@ -65,6 +65,6 @@ def run_p(seed, tier, replay=None):
 
 
 def run(seed, tier, replay=None):
-    return mix.merge(run_p(seed, tier, replay), mix.check([mix.mon_argv_env], seed, tier, 14, 60))
+    return mix.merge(run_p(seed, tier, replay), mix.check([mix.mon_argv_env], seed, tier, 15, 60))
 
 KNOWN_MATCHERS = {}
